@@ -175,6 +175,8 @@ impl Target {
     }
 }
 
+const TRAP_K: u32 = 77;
+
 #[contract]
 pub struct LogPolicy;
 
@@ -201,6 +203,10 @@ impl LogPolicy {
         let ok = authenticated_signers.len() >= k;
         rec["ok"] = json!(ok);
         w(|wd| wd.can.push(rec));
+        if k == TRAP_K {
+            // a policy that cannot make sense of the question (k = 77): it traps instead of answering
+            panic!("enforce refuses");
+        }
         ok
     }
 
@@ -670,7 +676,7 @@ fn drive_run(t: &mut Trace, d: &mut Drv, run: usize, len: usize) {
     let npol = if small { 2 } else { 6 };
     // policy behaviour
     for p in &POLS[..npol] {
-        let k = *pick(&mut d.r, &[0i64, 0, 1, 1, 2, 3, 99]);
+        let k = *pick(&mut d.r, &[0i64, 0, 1, 1, 2, 3, 99, 0, 0, 1, 1, 2, 3, 99, 77]);
         let rf = d.r.gen_bool(0.15);
         let ev = sys.step(&with(mkop("cfg"), &[("p", json!(p)), ("k", json!(k)), ("rf", json!(rf))]));
         t.step(ev);
@@ -737,7 +743,7 @@ fn drive_run(t: &mut Trace, d: &mut Drv, run: usize, len: usize) {
                                     "add_policy", "rm_policy", "check", "check", "check", "check", "check", "check", "cfg"]),
         };
         let op = match kind {
-            "cfg" => with(mkop("cfg"), &[("p", json!(pick(&mut d.r, &POLS[..npol]))), ("k", json!(pick(&mut d.r, &[0i64, 1, 2, 3, 99]))),
+            "cfg" => with(mkop("cfg"), &[("p", json!(pick(&mut d.r, &POLS[..npol]))), ("k", json!(pick(&mut d.r, &[0i64, 1, 2, 3, 99, 0, 1, 2, 3, 99, 77]))),
                                          ("rf", json!(d.r.gen_bool(0.2)))]),
             "add_rule" => {
                 let mut sg = match flavour {
